@@ -45,6 +45,8 @@ CONFIGS = {
     # memory errors only: for call sequences OUTSIDE the documented preconditions (lookups in array context compare
     # against a level that has no name: memcmp(p, NULL, 0), which UBSan's nonnull check would abort on)
     "asan-noub": ("gcc", "g++", "-O1 -g -fno-omit-frame-pointer -fsanitize=address"),
+    # the library WITHOUT -DBINSON_PARSER_WITH_PRINT (the repository's other build configuration)
+    "asan-noprint": ("gcc", "g++", "-O1 -g -fno-omit-frame-pointer -fsanitize=address,undefined -fno-sanitize-recover=undefined"),
 }
 
 
@@ -60,7 +62,7 @@ def build(config="asan", programs=(), extra_defs="", cc=None, flags=None, tag=No
     os.makedirs(d, exist_ok=True)
     os.utime(d, None)              # in use (see clean_old_builds)
     inc = "-I%s/include -I%s" % (REPO, HARNESS)
-    defs = "-DBINSON_PARSER_WITH_PRINT -D%s %s" % (GUARD, extra_defs)
+    defs = "%s-D%s %s" % ("" if config.endswith("noprint") else "-DBINSON_PARSER_WITH_PRINT ", GUARD, extra_defs)
     objs = []
     for src in LIB_C:
         o = os.path.join(d, os.path.basename(src) + ".o")
